@@ -78,7 +78,7 @@ RefOne(x, r) ==
 \* bulk recomputation of track / lineage ids assigns them in an order the model does not fix
 ArbitraryIds(c) == c[1] = KEnable /\ c[3] = 1 /\ ({"tid", "lid"} \cap FeatSet(c[2]) # {})
 \* primitives are modelled (and judged) under their documented preconditions only
-OutsidePre(x) == IsPrim(x.c) /\ ~PrimPre(x.pre, x.c)
+OutsidePre(x) == IsPrim(x.c) /\ ~(PFValid(x.pf) /\ PrimPre(x.pre, x.c))
 Refines(x) == ArbitraryIds(x.c) \/ OutsidePre(x) \/ \E r \in StepSet(ModelOf(x.pre), x.c) : RefOne(x, r)
 DriftWhat(x) ==
     LET r == CHOOSE q \in StepSet(ModelOf(x.pre), x.c) : TRUE
@@ -102,7 +102,7 @@ Report ==
     IF ~InUniverse(Rec.pre) THEN PrintT(<<"SKIP", i>>)
     ELSE
     /\ Bump(1)
-    /\ Rep("C01", 11, PFValid(x.pf) /\ Accepted(x) /\ (IsPrim(x.c) => PrimPre(x.pre, x.c)), P_C01(x))
+    /\ Rep("C01", 11, Accepted(x) /\ (IsPrim(x.c) => (PFValid(x.pf) /\ PrimPre(x.pre, x.c))), P_C01(x))
     /\ Rep("C03", 13, x.pf.forest /\ (Conflicting(x.pre, x.c) \/ (Accepted(x) /\ x.pre.E # x.post.E)),
                       P_C03(x) /\ ((x.pf.forest /\ Accepted(x)) => Forest(x.u_post) /\ Forest(x.r_post)))
     /\ Rep("C04", 14, x.pf.forest /\ x.pf.tid /\ Accepted(x) /\ x.pre.tid # x.post.tid,
